@@ -59,12 +59,20 @@ Inductive ending : Type :=
 | EHang.                   (* no answer within the time limit *)
 
 (** what is known about the input: [Some n]: a well-nested program with [n] nested constructs, which is
-    indented [cols] columns at its deepest line; [None]: arbitrary text *)
-Record obs : Type := mkobs { o_nest : option nat; o_cols : nat; o_end : ending }.
+    indented [cols] columns at its deepest line; [None]: arbitrary text. [o_chain]: a lower bound of the longest chain
+    of infix / postfix operations applied one after the other in one expression (`1 + 1 + ...`, `f(1)(1)...`) *)
+Record obs : Type := mkobs { o_nest : option nat; o_cols : nat; o_chain : nat; o_end : ending }.
 
-(** Known finding (crates/erg_parser/lex.rs lex_indent_dedent): the lexer rejects any line indented more than 100
-    columns ("indentation is too deep"), so indented blocks cannot be nested 200 deep (25 deep with 4 spaces) *)
-Definition Known_C09 (o : obs) : bool := Nat.ltb 100 (o_cols o).
+(** Known findings.
+    (1) crates/erg_parser/lex.rs lex_indent_dedent: the lexer rejects any line indented more than 100 columns
+        ("indentation is too deep"), so indented blocks cannot be nested 200 deep (25 deep with 4 spaces).
+    (2) crates/erg_parser/desugar.rs: a chain of more than 1000 operations is parsed by a loop (no recursion, no
+        depth) into a tree that deep; the recursive desugarer overflows the stack on it (measured: 2500 `+` are
+        fine, 3000 abort, in both builds). *)
+Definition CHAIN_SAFE : nat := 1000.
+Definition Known_indent (o : obs) : bool := Nat.ltb 100 (o_cols o).
+Definition Known_chain (o : obs) : bool := Nat.ltb CHAIN_SAFE (o_chain o).
+Definition Known_C09 (o : obs) : bool := Known_indent o || Known_chain o.
 
 Definition total_ok (e : ending) : bool :=
   match e with
@@ -74,7 +82,7 @@ Definition total_ok (e : ending) : bool :=
   end.
 
 Definition judge (o : obs) : bool :=
-  total_ok (o_end o) &&
+  (total_ok (o_end o) || (Known_chain o && match o_end o with ECrash => true | _ => false end)) &&
   match o_nest o with
   | None => true
   | Some n =>
